@@ -26,6 +26,19 @@ def kept_leaves(t):
                     out.append((ip, kp, val))
     return out
 
+def key_skeleton(t):
+    """the key lists of every object, by index path"""
+    out = {}
+    def w(x, ip):
+        k = jtree.kind(x)
+        if k == 'obj':
+            out[ip] = tuple(key for key, _ in x)
+            for i, (_, y) in enumerate(x): w(y, ip + (i,))
+        elif k == 'arr':
+            for i, y in enumerate(x): w(y, ip + (i,))
+    w(t, ())
+    return out
+
 def get_ip(t, ip):
     for i in ip:
         if jtree.kind(t) in ('obj', 'arr') and i >= len(t): return '<<missing>>'
@@ -63,6 +76,16 @@ def run(chk, replay=None):
             if mi != expect:
                 chk.violate('a position outside the zones was altered', {'cfg': cfg.describe(), 'input': l.decode('utf-8', 'replace'), 'output': io.decode('utf-8', 'replace')}, tags=['frame'])
             tout = jtree.parse(io)
+            # object keys are kept everywhere, also inside the zones (field-name redaction is off for this line)
+            if tout is not None:
+                ki, ko = key_skeleton(tin), key_skeleton(tout)
+                tm = jtree.parse(mo) if isinstance(mo, bytes) else None
+                if tm is not None and key_skeleton(tm) != ko:
+                    chk.disagree('object keys at every position', {'cfg': cfg.describe(), 'input': l.decode('utf-8', 'replace')}, str(sorted(ko.items()))[:300], str(sorted(key_skeleton(tm).items()))[:300])
+                bad = [(ip, ki[ip], ko.get(ip)) for ip in ki if ko.get(ip) != ki[ip]]
+                if bad:
+                    chk.violate('object keys changed although field-name redaction is off for this line', {'cfg': cfg.describe(), 'index_path': list(bad[0][0]), 'keys_in': list(bad[0][1]), 'keys_out': list(bad[0][2]) if bad[0][2] is not None else None,
+                                'input': l.decode('utf-8', 'replace'), 'output': io.decode('utf-8', 'replace')}, tags=['keys'])
             if tout is not None and zones.gate(tin):
                 for ip, kp, val in kept_leaves(tin):
                     if get_ip(tout, ip) != val:
